@@ -524,12 +524,17 @@ type crowdCase struct {
 }
 
 // rejectedFrame builds the k-th frame of connection ci: a frame the server answers with an exception that must carry the frame's own
-// transaction id, unit id and function code: not Modbus (8 bytes, protocol id 1), unsupported function, or out-of-range quantity.
+// transaction id, unit id and function code: not Modbus (8 bytes, protocol id 1), unsupported function, out-of-range quantity, or a
+// valid request that the handler refuses with an error after it has worked on it for a moment (units >= 200).
 func rejectedFrame(seed uint64, ci, k int) (frame, want []byte) {
 	s := seed + uint64(ci)*1000003 + uint64(k)*7919
 	v := harness.SplitMix64(&s)
 	tx, unit := uint16(v), uint8(v>>16)
-	switch (ci + k) % 3 {
+	switch (ci + k) % 4 {
+	case 3:
+		unit = 200 + unit%56
+		frame = spec.EncodeRequest(spec.TCP, spec.Req{FC: 3, Unit: unit, Tx: tx, Addr: uint16(v >> 24), Qty: 1 + uint16(v>>40)%100})
+		return frame, exception(frame, srv.ErrorCodeFor(unit))
 	case 0:
 		fc := uint8(1 + (v>>24)%4)
 		frame = []byte{byte(tx >> 8), byte(tx), 0, 1, 0, 6, unit, fc}
@@ -555,7 +560,7 @@ func runCrowd(c crowdCase) harness.Result {
 	wg.Add(1)
 	go func() {
 		defer wg.Done()
-		_ = s.Serve(ctx, l, &srv.Handler{Dev: device.New(c.Seed)})
+		_ = s.Serve(ctx, l, &srv.Handler{Dev: device.New(c.Seed), ErrorFromUnit: 200, Delay: 200 * time.Microsecond})
 	}()
 	defer func() {
 		cancel()
